@@ -149,8 +149,20 @@ def _child_history(dbdir: str, history: list[int], mode: str, point: int, out_pa
                     raise Boom()
     except Boom:
         pass
+    reopened = None
+    if mode in ("clean-exit", "body-raises"):
+        # a later patch() in the SAME process with the same path must find the committed state too
+        try:
+            with fakesnow.patch(db_path=dbdir):
+                fs2 = snowflake.connector.connect.side_effect.__self__
+                for d in ("DB1", "DB2"):
+                    if os.path.exists(os.path.join(dbdir, f"{d}.db")):
+                        snowflake.connector.connect(database=d)
+                reopened = {"snap": _snapshot_all(fs2)}
+        except Exception as e:
+            reopened = {"error": f"{type(e).__module__}.{type(e).__name__}: {str(e)[:300]}"}
     with open(out_path, "w") as f:
-        json.dump({"snaps": snaps, "calls_after_stmt": per_stmt}, f)
+        json.dump({"snaps": snaps, "calls_after_stmt": per_stmt, "reopened": reopened}, f)
 
 
 def _child_verify(dbdir: str, dbs: list[str], reconnect: str, out_path: str) -> None:
@@ -247,6 +259,11 @@ def run_durability(case, ctx: Ctx) -> None:
         if st_ != 0:
             ctx.fail(f"C18|{case['exit']}|first-process-failed", f"history {labels}: exit {st_}: {err[-600:]}")
         else:
+            re_ = json.load(open(os.path.join(root, "exit.json"))).get("reopened") or {}
+            if "error" in re_:
+                ctx.fail(f"C18|{case['exit']}|same-process-reopen-fails", f"history {labels}: a second patch(db_path) in the same process: {re_['error']}")
+            elif "snap" in re_ and _norm(re_["snap"], present(edir)) != _norm(snaps[-1], present(edir)):
+                ctx.fail(f"C18|{case['exit']}|same-process-reopen-state-differs", f"history {labels}: {_diff(snaps[-1], re_['snap'])}")
             got, verr = verify(edir, "exit")
             if got is None:
                 ctx.fail(f"C18|{case['exit']}|verifier-cannot-start", f"history {labels}: {verr}")
